@@ -200,18 +200,8 @@ def run(chk):
     chk.check(wit is None, "R4", f"{NET}:Network.send_message | every call sends", sm.loc(), f"a path returns without sending: {path_text(wit) if wit else ''}")
 
     # ------------------------------------------------------------------ R5 listener filter
-    ml = repo.func(NET, "MessageListener.on_message_received", "C10.R5")
-    fm = ff_for(chk, ml, "C10.R5")
-    ns = find_calls(ml.node, ".notify")
-    chk.floor("R5", len(ns), 1, "notify call in MessageListener")
-    for c in ns:
-        g = [(src(e), p) for e, p in fm.facts_at(fm.stmt_of(c))]
-        chk.check(("msg.is_error_frame", False) in g and ("msg.is_remote_frame", False) in g, "R5", f"{NET}:MessageListener.on_message_received | filter", ml.loc(c),
-                  f"notify reached under {g}: error and remote frames must not be dispatched")
-        chk.check([src(a) for a in c.args] == ["msg.arbitration_id", "msg.data", "msg.timestamp"], "R5", f"{NET}:MessageListener.on_message_received | fields", ml.loc(c), src(c))
-    wit = must_pass(fm.cfg, lambda n: node_calls(n, ".notify"),
-                    skip_edge=lambda n, lab: n.kind == "test" and "is_error_frame" in src(n.ast) and lab == "T")
-    chk.check(wit is None, "R5", f"{NET}:MessageListener.on_message_received | data frames are dispatched", ml.loc(), f"{path_text(wit) if wit else ''}")
+    from . import shared as _sh10
+    _sh10.listener_filter(chk, "R5")
 
     # ------------------------------------------------------------------ R6 scanner
     sc_cls = repo.cls(NET, "NodeScanner", "C10.R6")
